@@ -920,33 +920,13 @@ def mentions_non_xml_character(pattern: str) -> bool:
     return walk(ir)
 
 
-def confirmed_cause_of_refusal(pattern: str) -> Optional[str]:
-    """
-    ``cause_of(pattern)`` if the real translation fails on the pattern but succeeds once
-    the ``\\xHH`` spellings are replaced by a harmless letter; None otherwise.
-    """
-    cause = cause_of(pattern)
-    if cause is None or real_translate(pattern) is not None:
-        return None
-    toks = rg.tokens_of(pattern)
-    respelt = []
-    for i, tok in enumerate(toks):
-        if len(tok) == 4 and tok.startswith("\\x") and chr(int(tok[2:], 16)) in _METACHARS:
-            respelt.append("a")
-        elif tok == "x" and i >= 1 and toks[i - 1] == "\\\\":
-            respelt.append("y")
-        else:
-            respelt.append(tok)
-    return cause if real_translate("".join(respelt)) is not None else None
-
-
 def cause_of(minimal: str) -> Optional[str]:
-    """Name the construct of a 1-minimal pattern whose translation disagrees."""
+    """Name the ``\\xHH`` construct, if any, of a pattern whose translation disagrees."""
     toks = rg.tokens_of(minimal)
     for i, tok in enumerate(toks):
-        if tok == "\\\\" and i + 3 < len(toks) + 1:
+        if tok == "\\\\":
             rest = "".join(toks[i + 1: i + 4])
-            if re.match(r"x[0-9a-fA-F]{2}", rest):
+            if re.match(r"x[0-9a-zA-Z]{2}", rest):
                 return "escaped-backslash-before-xHH-undone-before-parsing"
     for tok in toks:
         if len(tok) == 4 and tok.startswith("\\x"):
@@ -955,46 +935,130 @@ def cause_of(minimal: str) -> Optional[str]:
     return None
 
 
-def shrink_disagreement(pattern: str, direction: str, rng: Any, seconds: float = 6.0) -> Optional[str]:
+def respellings(pattern: str) -> List[str]:
+    """The pattern with every ``\\xHH`` of a metacharacter replaced by a harmless letter."""
+    toks = rg.tokens_of(pattern)
+    out = []
+    for letter in ("a", "0", " ", "\u0101", "~"):
+        respelt = []
+        for i, tok in enumerate(toks):
+            if len(tok) == 4 and tok.startswith("\\x") and chr(int(tok[2:], 16)) in _METACHARS:
+                respelt.append(letter)
+            elif tok == "x" and i >= 1 and toks[i - 1] == "\\\\":
+                respelt.append("y")
+            else:
+                respelt.append(tok)
+        out.append("".join(respelt))
+    return out
+
+
+def confirmed_cause(pattern: str, fails: Any, passes: Any) -> Optional[str]:
     """
-    1-minimal pattern (anchors kept) whose *real* translation still disagrees with Python
-    in ``direction`` ("rejects-member" | "accepts-non-member") on sampled strings.
+    ``cause_of(pattern)`` if ``fails(pattern)`` holds and ``passes`` holds for the pattern
+    with the ``\\xHH`` spellings of metacharacters replaced by a harmless letter.
+    """
+    cause = cause_of(pattern)
+    if cause is None or not fails(pattern):
+        return None
+    for candidate in respellings(pattern):
+        if passes(candidate):
+            return cause
+    return None
+
+
+def _facet_of(pattern: str) -> Tuple[Optional[str], Optional[Any]]:
+    translated = real_translate(pattern)
+    if translated is None:
+        return None, None
+    return translated, xsd_facet_regex(translated)
+
+
+def confirmed_cause_of_refusal(pattern: str) -> Optional[str]:
+    """The real translation fails only because of the ``\\xHH`` spellings."""
+    return confirmed_cause(
+        pattern,
+        lambda p: real_translate(p) is None,
+        lambda p: real_translate(p) is not None,
+    )
+
+
+def confirmed_cause_of_invalid_facet(pattern: str) -> Optional[str]:
+    """The real translation is not an XSD regular expression only because of them."""
+
+    def fails(p: str) -> bool:
+        translated, facet = _facet_of(p)
+        return translated is not None and facet is None
+
+    def passes(p: str) -> bool:
+        translated, facet = _facet_of(p)
+        return translated is not None and facet is not None and not strict_escapes(translated)
+
+    return confirmed_cause(pattern, fails, passes)
+
+
+def strict_escapes(value: str) -> List[str]:
+    return ["\\" + m.group(1) for m in _NOT_XSD_ESCAPE.finditer(value) if m.group(1) not in _XSD_ESCAPED]
+
+
+def _disagrees(candidate: str, direction: str, rng: Any) -> bool:
+    """Python and the *real* translation (through xmlschema's regex) disagree on a sample."""
+    py, _ = rg.py_compile(candidate)
+    if py is None:
+        return False
+    translated = real_translate(candidate)
+    if translated is None:
+        return False
+    facet = xsd_facet_regex(translated)
+    if facet is None:
+        return False
+    try:
+        with rg.time_limit(1.0):
+            for s in rg.sample_strings(candidate, rng, 30, allow_surrogates=False):
+                if not judgeable_string(s):
+                    continue
+                member = py.match(s) is not None
+                accepted = facet.match(s) is not None
+                if direction == "rejects-member" and member and not accepted:
+                    return True
+                if direction == "accepts-non-member" and not member and accepted:
+                    return True
+    except rg.MatchTimeout:
+        return False
+    return False
+
+
+def explain_disagreement(pattern: str, direction: str, rng: Any, may_shrink: bool,
+                         seconds: float = 6.0) -> Tuple[str, Optional[str]]:
+    """
+    ``(mechanism, minimal pattern or None)`` of a disagreement that a real validation
+    has already witnessed (``direction``: "rejects-member" | "accepts-non-member").
+
+    The name is the confirmed cause (the disagreement vanishes when the ``\\xHH``
+    spellings of metacharacters are re-spelt), else the skeleton of a 1-minimal pattern
+    (anchors kept) that still disagrees, else ``not-minimised``.
     """
     if not (pattern.startswith("^") and pattern.endswith("$")):
-        return None
+        return "not-anchored", None
 
-    def fails(body: str) -> bool:
-        candidate = "^" + body + "$"
-        py, _ = rg.py_compile(candidate)
-        if py is None:
-            return False
-        translated = real_translate(candidate)
-        if translated is None:
-            return False
-        facet = xsd_facet_regex(translated)
-        if facet is None:
-            return False
-        try:
-            with rg.time_limit(1.0):
-                strings = rg.sample_strings(candidate, rng, 30, allow_surrogates=False)
-                for s in strings:
-                    if not judgeable_string(s):
-                        continue
-                    member = py.match(s) is not None
-                    accepted = facet.match(s) is not None
-                    if direction == "rejects-member" and member and not accepted:
-                        return True
-                    if direction == "accepts-non-member" and not member and accepted:
-                        return True
-        except rg.MatchTimeout:
-            return False
-        return False
+    def fails(candidate: str) -> bool:
+        return _disagrees(candidate, direction, rng)
 
-    body = pattern[1:-1]
-    if not fails(body):
-        return None
-    minimal = rg.shrink_pattern(body, fails, seconds=seconds)
-    return "^" + minimal + "$"
+    # the sampling is random: give the full pattern a few chances
+    reproduced = any(fails(pattern) for _ in range(3))
+    if reproduced:
+        def passes(candidate: str) -> bool:
+            translated, facet = _facet_of(candidate)
+            if translated is None or facet is None:
+                return False
+            return not any(fails(candidate) for _ in range(3))
+
+        cause = confirmed_cause(pattern, lambda p: True, passes)
+        if cause is not None:
+            return cause, None
+    if not may_shrink or not reproduced:
+        return (cause_of(pattern) or "not-minimised"), None
+    minimal = "^" + rg.shrink_pattern(pattern[1:-1], lambda body: fails("^" + body + "$"), seconds=seconds) + "$"
+    return (cause_of(minimal) or "minimal:" + rg.skeleton(minimal)), minimal
 
 
 # ---------------------------------------------------------------------------
@@ -1437,3 +1501,33 @@ def xmllint_verdict(xsd_text: str, document: str) -> Optional[bool]:
         import shutil
 
         shutil.rmtree(directory, ignore_errors=True)
+
+
+class Pace:
+    """
+    Soft / hard deadlines of one stage of a worker.
+
+    A stage stops at its soft deadline only if the worker has already contributed its
+    share of the minimum observation counts; otherwise it goes on until the counts are
+    reached or the hard deadline passes (a loaded machine must not turn the check
+    inconclusive while there is still something cheap to observe).
+    """
+
+    def __init__(self, chk: Any, soft: float, hard: float, targets: Dict[str, int]) -> None:
+        self.chk = chk
+        self.soft = soft
+        self.hard = hard
+        self.targets = targets
+
+    def over(self) -> bool:
+        elapsed = self.chk.elapsed()
+        if elapsed > self.hard:
+            return True
+        if elapsed > self.soft:
+            return all(self.chk.counters.get(c, 0) >= n for c, n in self.targets.items())
+        return False
+
+
+def share(minimum: int, n_shards: int) -> int:
+    """What one of ``n_shards`` workers should reach so that the sum is comfortable."""
+    return -(-minimum * 3 // (2 * n_shards))
